@@ -188,6 +188,7 @@ type kbMachine struct {
 	coinbase    string
 	coinbasePub crypto.PublicKey
 	dir         string // directory of the lazy keybase ("" = in memory)
+	forced      []string // operations the next steps must perform (scenario prefix of a case), then random ones
 }
 
 func (m *kbMachine) addrs() []string {
@@ -348,6 +349,9 @@ func (m *kbMachine) step() {
 		ops = []string{"create", "create", "importRaw", "importRaw", "importArmor", "importArmor", "getCoinbase"}
 	}
 	op := rapid.SampledFrom(ops).Draw(rt, "op")
+	if len(m.forced) > 0 {
+		op, m.forced = m.forced[0], m.forced[1:]
+	}
 	c.Label("op:" + op)
 	switch op {
 	case "create":
@@ -689,7 +693,7 @@ func (m *kbMachine) checkCoinbase(where string) {
 
 func c40Keybase(rt *rapid.T, c *harness.Case) {
 	m := &kbMachine{rt: rt, c: c, model: map[string]*kbEntry{}}
-	if rapid.IntRange(0, 3).Draw(rt, "lazy") == 0 {
+	if rapid.Bool().Draw(rt, "lazy") {
 		base := os.Getenv("VERIF_WORK")
 		dir, err := os.MkdirTemp(base, "c40-kb-")
 		if err != nil {
@@ -706,6 +710,13 @@ func c40Keybase(rt *rapid.T, c *harness.Case) {
 	}
 	c.Label("keybase")
 	n := rapid.IntRange(4, 9).Draw(rt, "steps")
+	// half of the cases start with the life of a node's own key: created, selected / read as the coinbase (every node does
+	// that at start-up), then re-encrypted under a new passphrase or deleted, then looked up again
+	if rapid.Bool().Draw(rt, "coinbaseScenario") {
+		m.forced = []string{"create", rapid.SampledFrom([]string{"setCoinbase", "getCoinbase"}).Draw(rt, "selectHow"),
+			rapid.SampledFrom([]string{"update", "update", "delete"}).Draw(rt, "thenWhat"), "get"}
+		c.Label("coinbase-then-update-or-delete")
+	}
 	m.checkListing("initial")
 	for i := 0; i < n; i++ {
 		m.step()
